@@ -149,6 +149,55 @@ func fuzzExpr(r *simrt.Rand, depth int) string {
 	}
 }
 
+// stressStmt builds valid but extreme programs: sizes around 255/256, deep
+// nesting, long literals and identifiers, many dedents.
+func stressStmt(r *simrt.Rand) string {
+	n := []int{2, 15, 16, 17, 63, 64, 65, 127, 128, 254, 255, 256, 257, 300}[r.Intn(14)]
+	rep := func(s string, k int, sep string) string {
+		parts := make([]string, k)
+		for i := range parts {
+			parts[i] = strings.Replace(s, "#", fmt.Sprint(i), -1)
+		}
+		return strings.Join(parts, sep)
+	}
+	switch r.Intn(14) {
+	case 0:
+		return "f(" + rep("a#", n, ", ") + ")\n"
+	case 1:
+		return "f(" + rep("k#=#", n, ", ") + ")\n"
+	case 2:
+		return "def f(" + rep("p#", n, ", ") + "):\n    return p0\n"
+	case 3:
+		return "x = " + strings.Repeat("(", n) + "1" + strings.Repeat(")", n) + "\n"
+	case 4:
+		return "x = " + strings.Repeat("[", n) + strings.Repeat("]", n) + "\n"
+	case 5:
+		return "x = " + rep("#", n, " + ") + "\n"
+	case 6:
+		return "x = [" + rep("#", n, ", ") + "]\n" + "a, " + rep("b#", n%40, ", ") + " = x\n"
+	case 7:
+		return "x = '" + strings.Repeat("s", n*4) + "'\ny = " + strings.Repeat("9", n) + "\nz = 0x" + strings.Repeat("f", n) + "\n"
+	case 8:
+		var b strings.Builder
+		k := n % 70
+		for i := 0; i < k; i++ {
+			b.WriteString(strings.Repeat(" ", i) + "if x:\n")
+		}
+		b.WriteString(strings.Repeat(" ", k) + "pass\n")
+		return b.String()
+	case 9:
+		return strings.Repeat("v", n*2) + " = 1\n"
+	case 10:
+		return "x = {" + rep("#: #", n, ", ") + "}\ns = {" + rep("#", n, ", ") + "}\n"
+	case 11:
+		return "x = " + strings.Repeat("not ", n) + "y\nz = " + strings.Repeat("-", n) + "1\n"
+	case 12:
+		return "x = a" + rep(".b#", n, "") + rep("[#]", n%50, "") + "\n"
+	default:
+		return "def f():\n" + rep("    v# = #", n, "\n") + "\n    return " + rep("v#", n, " + ") + "\n"
+	}
+}
+
 func fuzzStmt(r *simrt.Rand) string {
 	t := fuzzExpr(r, 2+r.Intn(2))
 	u := fuzzExpr(r, 1)
@@ -209,6 +258,9 @@ func (Engine) Gen(seed uint64, idx int, tier string) interface{} {
 			sc.Src += fuzzStmt(r)
 		}
 		sc.Name = "<exprfuzz>"
+	case x < 8 && r.Chance(1, 3):
+		sc.Src = stressStmt(r)
+		sc.Name = "<stress>"
 	case x < 8:
 		// a seeded sequence of tokens / fragments (keywords, operators, literals
 		// incl. malformed ones, indentation, control bytes, non-ASCII)
@@ -231,7 +283,7 @@ func (Engine) Gen(seed uint64, idx int, tier string) interface{} {
 		}
 		sc.Name = "<snippets>"
 	}
-	if sc.Mode == "eval" && sc.Name != "<tokens>" && sc.Name != "<exprfuzz>" {
+	if sc.Mode == "eval" && sc.Name != "<tokens>" && sc.Name != "<exprfuzz>" && sc.Name != "<stress>" {
 		// an expression: take something bracket-rich
 		es := []string{"f(a, *b, c=1, **d)[1:2].x + (lambda q: q)(1) if y else [i for i in z]", "{1: 'a', **m}", "(yield x)", "a < b < c and not d or e", "'%s' % (x,) + \"\"\"t\"\"\" * 2", "[1, 2,\n 3]", "1 + \\\n 2", "(a,\n b) \\\n + c", "x \\\n"}
 		sc.Src = es[r.Intn(len(es))]
@@ -241,7 +293,7 @@ func (Engine) Gen(seed uint64, idx int, tier string) interface{} {
 	if r.Chance(1, 8) {
 		nf = 3
 	}
-	if (sc.Name == "<exprfuzz>" || sc.Name == "<tokens>") && r.Chance(2, 3) {
+	if (sc.Name == "<exprfuzz>" || sc.Name == "<tokens>" || sc.Name == "<stress>") && r.Chance(2, 3) {
 		nf = 0
 	}
 	if r.Chance(1, 12) {
